@@ -100,6 +100,18 @@ var xUnits = []xUnit{
 		After: []string{"for {\n\n\tif v := atomic.AddInt32(&msgID, 1); v != 0 {\n\t\treturn v\n\t}\n}"}},
 	{Name: "tr_genRequestID_loop", Dir: "tars", Func: "ServantProxy.genRequestID", State: msgIDCounter, Fuel: true, Group: "reqid",
 		From: "for {", To: "for {", After: []string{}},
+	// the selectors' Select: cursor / hash / draw arithmetic and the table lookups (locks left out; hash code and random
+	// draws are oracles); the consistent hash lookup with sort.Search
+	{Name: "tr_rr_Select", Dir: "tars/selector/roundrobin", Func: "RoundRobin.Select", Recv: true,
+		Ignore: []string{"r.RLock()", "defer r.RUnlock()"}, Errs: map[string]bool{"errors.New": true}},
+	{Name: "tr_mh_Select", Dir: "tars/selector/modhash", Func: "ModHash.Select", Recv: true,
+		Ignore: []string{"m.RLock()", "defer m.RUnlock()"}, Errs: map[string]bool{"errors.New": true},
+		Oracles: map[string]xOracle{"msg.HashCode()": {"hashCode_", "Z"}}},
+	{Name: "tr_rnd_Select", Dir: "tars/selector/random", Func: "Random.Select", Recv: true,
+		Ignore: []string{"r.Lock()", "defer r.Unlock()"}, Errs: map[string]bool{"errors.New": true},
+		Oracles: map[string]xOracle{"r.rand.Intn(len(r.staticWeightRouterCache))": {"draw_cache", "Z"}, "r.rand.Intn(len(r.endpoints))": {"draw_eps", "Z"}}},
+	{Name: "tr_ch_FindInt32", Dir: "tars/selector/consistenthash", Func: "ConsistentHash.FindInt32", Recv: true,
+		Ignore: []string{"c.RLock()", "defer c.RUnlock()"}},
 	// the registry <-> endpoint conversions (Tars2endpoint without its cache key)
 	{Name: "tr_Endpoint2tars", Dir: "tars/util/endpoint", Func: "Endpoint2tars"},
 	{Name: "tr_Tars2endpoint_build", Dir: "tars/util/endpoint", Func: "Tars2endpoint", From: "^", To: "e := Endpoint{",
@@ -147,7 +159,7 @@ func newXLoader(root string) *xLoader {
 }
 
 func (l *xLoader) Import(path string) (*types.Package, error) {
-	if path == "encoding/binary" || path == "math" || path == "bytes" || path == "time" || path == "io" || path == "sync/atomic" {
+	if path == "encoding/binary" || path == "math" || path == "bytes" || path == "time" || path == "io" || path == "sync/atomic" || path == "sort" {
 		return l.std.Import(path)
 	}
 	if l.mod != "" && strings.HasPrefix(path, l.mod+"/") {
@@ -293,10 +305,13 @@ func xlateUnit(root string, u *xUnit, units []xUnit, ld *xLoader, records map[st
 		var ptrTypes []string
 		for _, f := range fd.Type.Params.List {
 			for _, id := range f.Names {
-				if id.Name == "_" {
-					x.fail(id, "blank parameters are outside the subset")
+				if id.Name == "_" { // never referenced
+					continue
 				}
 				obj := x.info.ObjectOf(id)
+				if u.Recv && !x.translatable(obj.Type()) { // e.g. an interface used in oracle expressions only: any other use fails
+					continue
+				}
 				if u.State != nil {
 					if x.src(f.Type) == "*bytes.Reader" { // the library object: part of the state
 						continue
@@ -354,6 +369,12 @@ func xlateUnit(root string, u *xUnit, units []xUnit, ld *xLoader, records map[st
 					}
 				}
 				switch n := n.(type) {
+				case *ast.CallExpr:
+					if len(n.Args) == 2 {
+						if f := x.atomicField(n); f != nil {
+							written[f] = true
+						}
+					}
 				case *ast.AssignStmt:
 					for _, l := range n.Lhs {
 						if f := x.field(l); f != nil {
